@@ -138,12 +138,26 @@ fn mapping_is_empty_handle_recusrsion(
         }
     }
 
-    let is_empty = mapping_is_empty_impl(dnf.clone(), ctx, is_map)?;
-    ctx.mapping_memo_dnf
-        .get_mut(&dnf)
-        .expect("bdd should be cached by now")
-        .0 = MemoEmpty::from_bool(&is_empty);
-    Ok(is_empty)
+    ctx.pending_empty_checks += 1;
+    let res = mapping_is_empty_impl(dnf.clone(), ctx, is_map);
+    ctx.pending_empty_checks -= 1;
+    match res {
+        // "empty" found while an enclosing check still assumes its own diagram empty is provisional:
+        // it may only be kept once that assumption is confirmed, so it is not memoised
+        Ok(IsEmptyStatus::IsEmpty) if ctx.pending_empty_checks > 0 => {
+            ctx.mapping_memo_dnf.remove(&dnf);
+        }
+        Ok(is_empty) => {
+            ctx.mapping_memo_dnf
+                .get_mut(&dnf)
+                .expect("bdd should be cached by now")
+                .0 = MemoEmpty::from_bool(&is_empty);
+        }
+        Err(_) => {
+            ctx.mapping_memo_dnf.remove(&dnf);
+        }
+    }
+    res
 }
 
 pub fn dnf_mapping_is_empty(bdd: &Rc<Bdd>, ctx: &mut SemTypeContext) -> Result<IsEmptyStatus> {
